@@ -694,6 +694,36 @@ def _stmt_of(f: FuncInfo, node: ast.AST) -> ast.AST:
     return f.node
 
 
+# ---------------------------------------------------------------------------------------------------------------- C05.settings
+def rule_settings(ctx, p: Project):
+    """which solver runs is the user's choice: an explicit True / False given to SettingsInversion is what the property reports; only `None` (not given) selects the
+    config default.  Decided on the decision table of each property (helpers looked into): result = the stored value where it is not None, the config entry otherwise -
+    a truthiness test (`value or default`) would replace an explicit False by the default."""
+    rule = "C05.settings"
+    c = p.cls("autoarray.inversion.inversion.settings:SettingsInversion")
+    n = 0
+    for name in ("use_positive_only_solver", "positive_only_uses_p_initial"):
+        m = c.lookup(name)
+        if m is None:
+            raise AnchorMissing(f"SettingsInversion.{name}")
+        qs = paths.returns(paths.path_summaries(m, project=p) or [])
+        fld = f"self._{name}"
+        cfg = (f"conf.instance['general']['inversion']['{name}']",)
+        ok = bool(qs)
+        det = []
+        for q in qs:
+            given = q.holds(f"{fld} is not None")
+            det.append(f"given={given}: {q.text[:70]}")
+            extra = [t for t, _ in q.conds if t not in (f"{fld} is not None", f"{fld} is None")]
+            ok = ok and not extra and ((given is True and q.text == fld) or (given is False and q.text in cfg))
+        ok = ok and {q.holds(f"{fld} is not None") for q in qs} == {True, False}
+        n += 1
+        ctx.ob(rule, f"{c.key}.{name}", ok, where=m, node=m.node, construct="; ".join(det)[:300],
+               message=f"`{name}` must report the value given to the constructor whenever one was given (True or False) and the config default only when none was (is None): "
+                       f"any other test lets the default override an explicit choice of solver")
+    ctx.require_count(rule, "solver-selecting settings", n, 2)
+
+
 # ---------------------------------------------------------------------------------------------------------------- C05.chol
 def rule_chol(ctx, p: Project, K: KEval):
     rule = "C05.chol"
@@ -863,6 +893,7 @@ def run(ctx):
     ctx.rule("C05.reduce", "forced-zero parameters removed from D and both axes of F+H by one selector and scattered back onto zeros; per-mapper indices shifted by param_range[0]")
     ctx.rule("C05.data", "per-object model data = operated mapping matrix (or unique mappings + PSF) x that object's slice of s; total = sum")
     ctx.rule("C05.state", "fnnls_cholesky typestate: w fresh w.r.t. d, d = positive least-squares solution on P, factor and ordered list and P in step, at every evaluation of the loop condition")
+    ctx.rule("C05.settings", "use_positive_only_solver / positive_only_uses_p_initial report an explicit True / False unchanged; only None selects the config default")
     ctx.rule("C05.chol", "rank-one update / downdate kernels equal the Givens recurrences; insertion and deletion follow the block algebra of an upper-triangular factor")
     p = ctx.p
     K = KEval(p)
@@ -871,6 +902,7 @@ def run(ctx):
     rule_data(ctx, p, K)
     rule_state(ctx, p)
     rule_chol(ctx, p, K)
+    rule_settings(ctx, p)
     ctx.note("decides partial correctness only: if the solver leaves its loop through the loop condition, the invariants established here make the result satisfy the KKT conditions of the property "
              "up to the tolerance (Lawson-Hanson); termination, the stall guard, conditioning and floating-point error of scipy's cholesky / cho_solve / solve are outside static reach")
 
